@@ -346,6 +346,7 @@ func H_PlaceBid() {
 	assertTermsUnchanged("C19.bid-terms", preA, a, sp.nEnd)
 	nd.Assert("C08.bid-status-unchanged", a.GetStatus() == sp.status)
 	nd.Assert("C19.bid-gets-next-id", len(postBids) == len(preBids)+1)
+	nd.Assert("C19.bid-written-under-no-other-auction", len(bidsOf(e, tid()-1)) == 0 && len(bidsOf(e, tid()+1)) == 0)
 	if len(postBids) == len(preBids)+1 {
 		rec := postBids[len(postBids)-1]
 		nd.Assert("C19.bid-id-increasing", rec.Id == uint64(len(preBids)+1) && rec.AuctionId == tid())
@@ -449,8 +450,13 @@ func H_ModifyBid() {
 	if len(postBids) != len(preBids) {
 		return
 	}
+	// nothing appears under the neighbouring auction ids (a record that loses its auction id lands under 0)
+	nd.Assert("C19.modify-writes-no-bid-under-another-auction", len(bidsOf(e, tid()-1)) == 0 && len(bidsOf(e, tid()+1)) == 0)
 	for i, b := range preBids {
 		nb := postBids[i]
+		if accepted && i == target {
+			nd.Assert("C19.modify-changes-the-bid-of-its-own-auction", nd.And(nb.Price.Equal(price), nb.Coin.Amount.Equal(amt)))
+		}
 		nd.Assert("C19.modify-bid-identity-kept", nb.Id == b.Id && nb.AuctionId == b.AuctionId && nb.Bidder == b.Bidder && nb.Type == b.Type && nb.Coin.Denom == b.Coin.Denom)
 		if accepted && i == target {
 			nd.Assert("C11.modify-stores-new-terms", nd.And(nb.Price.Equal(price), nb.Coin.Amount.Equal(amt)))
